@@ -1,5 +1,5 @@
 SPECIFICATION Spec
-CONSTANTS MaxNodes = 5
+CONSTANTS MaxNodes = 6
  HostIds = {"H0", "H1", "H2"}
  Emit = TRUE
  WithSubst = TRUE
